@@ -10,6 +10,12 @@ Correspondence (all through the REAL code paths, nothing stubbed below the front
     intervals) issued from several real threads in a model-chosen serial order; every read of
     `/proc/stat` is served the next scripted snapshot by a wrapper around `_pslinux.open_binary`
     (the real parser runs on it), `time.sleep` is recorded instead of sleeping;
+  * population histories (seeded round 5): the number of callers that hold a sample AT THE SAME TIME grows to
+    hundreds of real threads / thousands of scripted thread identifiers (psutil's module global `threading` is
+    wrapped from outside so that `current_thread().ident` answers the scripted value); at every size of a
+    structured list old, new, middle, least-recently-active, random (at some sizes: all) members ask again and
+    must be measured against their OWN previous sample; + random interleavings + EVERY (size k, position j < k)
+    for small k; the model is `cstep` over the four dictionaries as containers (`Cfg.storeBound`);
   * histories of `Process.cpu_percent` on several `Process` objects over a fake `/proc/<pid>/stat`,
     a scripted `psutil._timer` and a scripted `cpu_count_logical`.
 Floats are compared with the model's exact rationals: |impl − exact| ≤ 0.05 + 1e-9 (+ a computed
@@ -40,13 +46,14 @@ TRUSTED = [
     "C07 floats: the implementation computes in IEEE doubles and `round(x, 1)`, the model in exact rationals; results are compared with tolerance 0.05 + 1e-9 + a computed bound on the double rounding of the inputs (near-boundary cases counted in the evidence)",
     "C07 renderer: `/proc/stat` as printed by fs/proc/stat.c (`cpu  ` + 7–10 decimal columns, `cpuN ` lines, other lines not starting with `cpu`) is a trusted transcription; tokens are decimal digit strings or strings `float()` rejects",
     "C07 threads: the thread id is `threading.current_thread().ident`; dictionary get/set are atomic under the GIL (the interleaving theorem is at that granularity); an identifier handed out again after a thread ended IS modelled (C07_ident_reuse_inherits) and exercised with really re-used identifiers",
+    "C07 per-thread store: the four _last_* objects are builtin dicts touched only by X.get(tid) / X[tid] / X[tid] = … (translator facts lastDictDefs, lastDictOtherUses, lastStoreBound → obligation cfg_store_plain_dict); CPython's dict keeps every item until its key is written again (modelled as an insertion-ordered association list, PyDict); scripted thread identifiers reach the code through a proxy of psutil's module global `threading` (current_thread().ident / get_ident()), real threads are used up to a few hundred",
     "C07 token grammar: the kernel prints every counter as `%llu` = Spec.isKernelTok (proved to be exactly the renderer's tokens, C07_grammar_exact); validated on every run against the live /proc/stat of the host (each token asked of the Lean recogniser; the whole file re-rendered byte-identically by the Lean renderer when it has <= 10 columns and CPUs numbered 0..n-1) AND against every file the generators of the claimed families script (token_hypothesis:* counters; the Python twins of the recognisers are validated against the Lean ones on a sample of the distinct tokens)",
     "C07 float() on the two claimed token classes: a string of ASCII digits is read as its decimal value (leading zeros included), a token containing a byte outside `0-9 + - . _ e E` and the letters of inf/infinity/nan raises ValueError; everything between (1e3, +5, --1, nan …) is outside the claim (compared with the model only, or recorded)",
     "C07 fresh import: the module-level priming code is run for real in a child interpreter whose builtins.open serves scripted /proc/stat contents (wrapper from outside, no source hook)",
     "C07 Process.cpu_percent: /proc/<pid>/stat parsing itself is C06's subject; here utime/stime reach the model as tick counts",
 ]
 MANIFEST = {
-    "level_text": "Machine-checked Lean 4 proofs over an exact-rational model of the Linux /proc/stat parser and of the cpu_percent / cpu_times_percent / Process.cpu_percent front ends: parse∘render round trip for every kernel state (C07_times_exact, C07_per_cpu_times_exact, kernel order C07_fields_kernel_order), cpu_percent = round1(100·busy/total) for all rational samples and all four field sets (C07_percent_formula), range [0,100] (C07_percent_range), decreasing counters contribute zero (C07_decreasing_field_contributes_zero), guest not double counted (C07_guest_not_double_counted, C07_guest_accounting), cpu_times_percent shares within [0,100] (C07_tp_range) adding up to exactly 100 before rounding and within 0.05 per field after (C07_tp_sum_exact, C07_tp_sum_rounded) for EVERY positive total; the full statement C07_tp_sum_Full is proved for the guard `100/all_delta if all_delta > 0` (C07_tp_sum_fixed), proved for totals ≥ 1 s for the current guard (C07_tp_sum_partial) and REFUTED for the current `max(1, all_delta)` guard with a 0.1 s witness (C07_tp_sum_counterexample; known finding C07-tp-subsecond); every call is measured against the same thread's previous sample for every history (C07_own_previous_sample, by induction), thread independence for serial histories and for every interleaving of dictionary accesses (C07_thread_independence, C07_thread_independence_interleaved), Process.cpu_percent formula/first call/negative interval/object independence (C07_proc_percent, …); the full statement for ANY sequence of CPU counts (C07_proc_percent_Full) is proved at full strength for the code as it is now (C07_proc_percent_code, through the obligation cfg_proc_scale_delta on the shape `delta_time = (st2 - st1) * num_cpus` over raw time stamps, C07_proc_percent_fixed) and REFUTED for the code as found, which subtracted `timer()*num_cpus` products of two different calls (C07_proc_percent_counterexample: 2 -> 1 CPUs gives a negative percentage; C07-cpu-count-change, fixed in /repo by 73df480); 'since module import': from the state the module-level code leaves, for every history (C07_since_import, C07_first_call_after_import); per-CPU lists of different lengths (C07_percpu_any_lengths, C07_percpu_cpu_count_change: one value per CPU present in both samples, position by position); threads versus identifiers (C07_own_thread_partial under distinct identifiers, C07_ident_reuse_inherits, C07_ident_reuse_counterexample); the kernel token grammar (C07_token_grammar, C07_grammar_exact, C07_grammar_tokens_parse); cpuN lines carrying their own numbers, offline CPUs left out (C07_times_any_numbering, C07_percpu_numbered_by_position, C07_percpu_by_number_partial, and the characterisation C07_percpu_by_number_counterexample for a CPU that goes offline in the middle of the list); the parser on ANY bytes (C07_cpu_times_any_bytes, C07_per_cpu_times_any_bytes: ValueError exactly when a converted token is not a digit string — C07_valueError_exactly_when —, else TypeError exactly when fewer than nf tokens — C07_typeError_exactly_when —, tokens beyond column nf ignored — C07_columns_beyond_ignored —, per-CPU list exactly when every cpu line is well formed — C07_per_cpu_ok_exactly_when —, token classes C07_token_classes / C07_foreign_token_raises / C07_leading_zeros); a blocking call files its post-sleep sample as the thread's last sample (C07_blocking_sample_is_remembered, obligation cfg_blocking_stores). The model is tied to the code by 22 translator facts feeding the proof obligations cfg_good / cfg_proc_scale_delta / cfg_blocking_stores and by a differential run of the real functions on generated kernel states (also with numbered cpuN lines), a systematic malformed-token stream compared with the byte-level specification, call histories from real threads (also short-lived ones whose identifiers are handed out again; non-blocking/blocking/non-blocking on one thread for all four variants), fresh imports in a child interpreter, Process histories with changing CPU counts, and the live /proc/stat; the kernel-token hypothesis is checked on every scripted and on the live file.",
+    "level_text": "Machine-checked Lean 4 proofs over an exact-rational model of the Linux /proc/stat parser and of the cpu_percent / cpu_times_percent / Process.cpu_percent front ends: parse∘render round trip for every kernel state (C07_times_exact, C07_per_cpu_times_exact, kernel order C07_fields_kernel_order), cpu_percent = round1(100·busy/total) for all rational samples and all four field sets (C07_percent_formula), range [0,100] (C07_percent_range), decreasing counters contribute zero (C07_decreasing_field_contributes_zero), guest not double counted (C07_guest_not_double_counted, C07_guest_accounting), cpu_times_percent shares within [0,100] (C07_tp_range) adding up to exactly 100 before rounding and within 0.05 per field after (C07_tp_sum_exact, C07_tp_sum_rounded) for EVERY positive total; the full statement C07_tp_sum_Full is proved for the guard `100/all_delta if all_delta > 0` (C07_tp_sum_fixed), proved for totals ≥ 1 s for the current guard (C07_tp_sum_partial) and REFUTED for the current `max(1, all_delta)` guard with a 0.1 s witness (C07_tp_sum_counterexample; known finding C07-tp-subsecond); every call is measured against the same thread's previous sample for every history (C07_own_previous_sample, by induction), thread independence for serial histories and for every interleaving of dictionary accesses (C07_thread_independence, C07_thread_independence_interleaved), Process.cpu_percent formula/first call/negative interval/object independence (C07_proc_percent, …); the full statement for ANY sequence of CPU counts (C07_proc_percent_Full) is proved at full strength for the code as it is now (C07_proc_percent_code, through the obligation cfg_proc_scale_delta on the shape `delta_time = (st2 - st1) * num_cpus` over raw time stamps, C07_proc_percent_fixed) and REFUTED for the code as found, which subtracted `timer()*num_cpus` products of two different calls (C07_proc_percent_counterexample: 2 -> 1 CPUs gives a negative percentage; C07-cpu-count-change, fixed in /repo by 73df480); 'since module import': from the state the module-level code leaves, for every history (C07_since_import, C07_first_call_after_import); per-CPU lists of different lengths (C07_percpu_any_lengths, C07_percpu_cpu_count_change: one value per CPU present in both samples, position by position); threads versus identifiers (C07_own_thread_partial under distinct identifiers, C07_ident_reuse_inherits, C07_ident_reuse_counterexample); the kernel token grammar (C07_token_grammar, C07_grammar_exact, C07_grammar_tokens_parse); cpuN lines carrying their own numbers, offline CPUs left out (C07_times_any_numbering, C07_percpu_numbered_by_position, C07_percpu_by_number_partial, and the characterisation C07_percpu_by_number_counterexample for a CPU that goes offline in the middle of the list); the parser on ANY bytes (C07_cpu_times_any_bytes, C07_per_cpu_times_any_bytes: ValueError exactly when a converted token is not a digit string — C07_valueError_exactly_when —, else TypeError exactly when fewer than nf tokens — C07_typeError_exactly_when —, tokens beyond column nf ignored — C07_columns_beyond_ignored —, per-CPU list exactly when every cpu line is well formed — C07_per_cpu_ok_exactly_when —, token classes C07_token_classes / C07_foreign_token_raises / C07_leading_zeros); a blocking call files its post-sleep sample as the thread's last sample (C07_blocking_sample_is_remembered, obligation cfg_blocking_stores); the per-thread store as the CONTAINER it is — four insertion-ordered dictionaries with a retention policy (Cfg.storeBound, obligation cfg_store_plain_dict: builtin dicts accessed by key only) — so that the number of threads holding a sample at the same time is quantified over: C07_own_previous_sample_any_population / C07_since_import_any_population (every history, any population), C07_store_retains_every_thread (every dictionary holds for every thread exactly the sample the specification remembers), C07_own_history_only (the promise depends on the caller's own calls only), full statement C07_own_sample_store_Full proved for the code (C07_own_sample_store_code) and REFUTED for every container bounded by n >= 1 with n + 1 polling threads (C07_bounded_store_counterexample, C07_bounded_store_code_counterexample). The model is tied to the code by 32 translator facts feeding the proof obligations cfg_good / cfg_proc_scale_delta / cfg_blocking_stores and by a differential run of the real functions on generated kernel states (also with numbered cpuN lines), a systematic malformed-token stream compared with the byte-level specification, call histories from real threads (also short-lived ones whose identifiers are handed out again; non-blocking/blocking/non-blocking on one thread for all four variants), population histories (up to hundreds of real threads and thousands of scripted identifiers holding a sample at the same time, all four variants, every (size k <= 10, position) exhaustively), fresh imports in a child interpreter, Process histories with changing CPU counts, and the live /proc/stat; the kernel-token hypothesis is checked on every scripted and on the live file.",
     "level_note": "Partial: IEEE doubles are modelled by exact rationals (tolerance stated); the sum-to-100 clause is false of the current code for 0 < total < 1 s (C07-tp-subsecond, the one known finding left; no repair that keeps test_cpu_steal_decrease green); Process.cpu_percent with a CPU count that changes between two calls was false of the code as found and is fixed by 73df480 (proved at full strength for the current code: C07_proc_percent_code); the thread-level statement needs distinct thread identifiers (false otherwise, by design of the code; what is returned is proved); tokens that are neither digit strings nor certainly rejected by float() (1e3, +5, nan, --1 …) are outside the claim; per-CPU entries are positions in the printed list (equal to CPU numbers whenever both samples list the same CPUs); thread steps are dictionary accesses (GIL atomicity assumed).",
     "technique": "Lean 4 proofs (field arithmetic over ℚ, round-trip, induction over histories and interleavings) + translator-fed proof obligation + differential correspondence through a fake /proc/stat with real threads",
     "design_ref": "DESIGN.md §5 C07",
@@ -56,6 +63,7 @@ ASSUMPTIONS = [
     "counters fit a u64; tokens of /proc/stat are in the grammar Spec.isKernelTok = 0|[1-9][0-9]* (malformed stream: strings float() rejects); strings float() accepts but no kernel prints (1e3, +5, nan, 1_0, inf, 1.5 …) are outside the claim — what the real parser does with them is recorded in the evidence, never compared",
     "per-CPU results: psutil ignores the N of cpuN, entry k is the k-th printed line (C07_times_any_numbering, C07_percpu_numbered_by_position: any numbering, gaps included). 'For each CPU separately' in terms of CPU NUMBERS holds whenever both samples list the same CPUs (C07_percpu_by_number_partial) and is false of the code when a CPU in the middle goes offline between two samples (C07_percpu_by_number_counterexample) — a characterisation beyond the property's quantifier (which fixes the CPUs of a sequence of snapshots), not a finding",
     "thread-level reading of 'own previous sample' needs distinct identifiers for the threads involved (IdentInjectiveOn); without it C07_ident_reuse_counterexample applies and C07_ident_reuse_inherits says what is returned",
+    "per-thread store: that no sample is ever dropped is PROVED for the container the translator recognises (builtin dicts touched by key only, cfg_store_plain_dict) for any number of threads; the correspondence exercises populations up to 129 live real threads and 513 scripted identifiers per run (5000 in the thorough tier and in the failing-input search); a store that forgets by wall-clock age is not spanned (no clock in the non-blocking path of the model)",
     "float corner outside the claim: if NO non-guest counter advanced while BOTH guest and guest_nice did, (g+gn)-g-gn may leave a 1e-17 residue in doubles and cpu_percent() reports busy instead of 0.0 (counted as float_cancellation_corner)",
 ]
 
@@ -128,6 +136,43 @@ class Worker(threading.Thread):
         self.q.put(None)
 
 
+class _ScriptedThread:
+    """what `threading.current_thread()` returns while an identifier is scripted: the real Thread object with
+    another `ident`"""
+
+    def __init__(self, real, ident):
+        self._real = real
+        self.ident = ident
+
+    def __getattr__(self, name):
+        return getattr(self._real, name)
+
+
+class _ThreadingProxy:
+    def __init__(self, real):
+        self._real = real
+        self._script = threading.local()
+
+    def __getattr__(self, name):
+        return getattr(self._real, name)
+
+    def set_ident(self, ident):
+        self._script.ident = ident
+
+    def current_thread(self):
+        t = self._real.current_thread()
+        ident = getattr(self._script, "ident", None)
+        return t if ident is None else _ScriptedThread(t, ident)
+
+    def get_ident(self):
+        ident = getattr(self._script, "ident", None)
+        return self._real.get_ident() if ident is None else ident
+
+
+DICT_OF = {("percent", False): "_last_cpu_times", ("percent", True): "_last_per_cpu_times",
+           ("times_percent", False): "_last_cpu_times_2", ("times_percent", True): "_last_per_cpu_times_2"}
+
+
 class Impl:
     def __init__(self, ctx):
         self.ps = ctx.psutil
@@ -149,6 +194,12 @@ class Impl:
         self.reads_by_thread = {}
         self.vlen = None
         self.host_fields = tuple(self.plat.scputimes._fields)
+        # thread identifiers scripted from outside (population family): psutil's module global `threading` is wrapped
+        # by a proxy that answers `current_thread().ident` / `get_ident()` with the scripted value while one is set
+        # (per real thread), and is the real module for everything else
+        self.orig_threading = self.ps.threading
+        self.thr_proxy = _ThreadingProxy(self.orig_threading)
+        self.ps.threading = self.thr_proxy
 
     def set_tck(self, tck):
         """USER_HZ of the scripted kernel: `_pslinux.CLOCK_TICKS` is patched from outside to the value the scenario
@@ -161,6 +212,7 @@ class Impl:
         return self.tck
 
     def close(self):
+        self.ps.threading = self.orig_threading
         self.plat.CLOCK_TICKS = self.host_tck
         self.plat.open_binary = self.orig_open_binary
         _time.sleep = self.orig_sleep
@@ -270,16 +322,31 @@ class Impl:
                 else:
                     val = {"k": "tup", "v": [float(x) for x in r]}
                 return {"kind": "ok", "nreads": n, "val": val, "slept": len(slept), "events": list(ev),
-                        "interval_py": interval, "types_ok": _types_ok(r)}
+                        "interval_py": interval, "types_ok": _types_ok(r), "pop": self._pop(op)}
             except Exception as e:  # noqa: BLE001 — every exception is an observable
-                return self._exc(e, {"nreads": n, "slept": len(slept), "events": list(ev), "interval_py": interval})
+                return self._exc(e, {"nreads": n, "slept": len(slept), "events": list(ev), "interval_py": interval,
+                                     "pop": self._pop(op)})
 
+        if op.get("ident") is not None:
+            # the caller is whoever `threading.current_thread().ident` says it is: scripted (no real thread needed)
+            self.thr_proxy.set_ident(op["ident"])
+            try:
+                return run()
+            finally:
+                self.thr_proxy.set_ident(None)
         if on is not None:
             return on(run)
         t = op["tid"]
         if t == 0:
             return run()            # the harness' own (main) thread is a psutil caller too
         return self.worker(t - 1).call(run)
+
+    def _pop(self, op):
+        """how many entries the dictionary of this function/variant holds (internal: only counted, never compared)"""
+        try:
+            return len(getattr(self.ps, DICT_OF[(op["fn"], bool(op["percpu"]))]))
+        except Exception:  # noqa: BLE001
+            return None
 
     # ---- Process.cpu_percent
     def proc_setup(self, pids):
@@ -960,6 +1027,195 @@ def nbn_histories(rng, tcks):
     return hs
 
 
+# ------------------------------------------------------------------------------ population of the per-thread store
+
+# How many threads have a sample filed AT THE SAME TIME is a dimension of its own (seeded C07-4: a store that holds
+# at most 64 entries): the histories above never have more than 5 callers. Here the population grows to hundreds
+# (real threads) / thousands (scripted identifiers) of callers, and at every size of a structured list the counters
+# advance and old, new, middle, least-recently-active and random members (at some sizes: ALL members) ask again:
+# each must be measured against ITS OWN previous sample with ONE read.
+IDENT_BASE = 0x7F3A00000000
+IDENT_STRIDE = 0x801000          # pthread_t-like values: huge, distinct, page aligned
+POP_SIZES = [1, 2, 3, 4, 5, 7, 8, 9, 12, 15, 16, 17, 24, 31, 32, 33, 48, 63, 64, 65, 96, 100, 127, 128, 129, 192, 255,
+             256, 257, 384, 500, 511, 512, 513, 768, 1000, 1023, 1024, 1025, 1536, 2047, 2048, 2049, 3000, 4095, 4096,
+             4097, 5000, 8191, 8192, 8193, 10000]
+POP_SWEEPS = (33, 65, 129, 257, 513, 1025, 2049, 4097)
+VARIANTS = [("percent", False), ("percent", True), ("times_percent", False), ("times_percent", True)]
+
+
+class PopHistory:
+    """builder of one population history (all calls non-blocking unless said otherwise)"""
+
+    def __init__(self, rng, tck, mode, variants):
+        self.rng, self.tck, self.mode = rng, tck, mode
+        self.variants = list(variants)
+        self.vlen = rng.choice([7, 8, 10, 10])
+        self.ncols = rng.randrange(self.vlen, 11)
+        self.cur = [[rng.randrange(0, 1000) for _ in range(10)] for _ in range(rng.choice([1, 1, 2]))]
+        self.ops = []
+        self.members = {v: [] for v in self.variants}       # insertion order of the callers, per function/variant
+        self.last_call = {v: {} for v in self.variants}
+        self.next_tid = 0 if mode == "real" else 1
+        self.max_pop = 0
+
+    def snap(self):
+        # every CPU advances by at least one second between two snapshots (outside the region of C07-tp-subsecond: the
+        # family is about WHOSE sample a call is measured against), differently each time, guest inside user
+        rng, new = self.rng, []
+        for c in self.cur:
+            d = [rng.randrange(0, 400) for _ in range(8)] + [0, 0]
+            d[3] += self.tck
+            d[8], d[9] = rng.randrange(0, d[0] + 1), rng.randrange(0, d[1] + 1)
+            new.append([a + b for a, b in zip(c, d)])
+        self.cur = new
+        return render_snapshot(self.ncols, self.cur).hex()
+
+    def call(self, tid, variant, interval=None):
+        fn, percpu = variant
+        op = {"op": "call", "vlen": self.vlen, "tck": self.tck, "fn": fn, "tid": tid, "interval": interval,
+              "percpu": percpu, "reads": [self.snap(), self.snap()]}
+        if self.mode == "scripted":
+            op["ident"] = IDENT_BASE + tid * IDENT_STRIDE
+        self.ops.append(op)
+        if tid not in self.last_call[variant]:
+            self.members[variant].append(tid)
+        self.last_call[variant][tid] = len(self.ops)
+        self.max_pop = max(self.max_pop, len(self.members[variant]))
+
+    def join(self, variant=None):
+        """a thread that never called before takes its first sample (through one variant, or through all)"""
+        tid = self.next_tid
+        self.next_tid += 1
+        for v in ([variant] if variant is not None else self.variants):
+            self.call(tid, v)
+        return tid
+
+    def probes(self, variant, sweep=False):
+        m = self.members[variant]
+        if sweep:
+            # every member (beyond 300: the two ends and a random 48 of the rest)
+            out = list(m) if len(m) <= 300 else m[:8] + m[-8:] + self.rng.sample(m[8:-8], 48)
+            self.rng.shuffle(out)
+            return out
+        lc = self.last_call[variant]
+        cand = [m[0], m[-1], m[len(m) // 2], min(m, key=lambda t: lc[t]), m[1 % len(m)], m[-2 % len(m)],
+                self.rng.choice(m), self.rng.choice(m)]
+        out = []
+        for t in cand:
+            if t not in out:
+                out.append(t)
+        return out
+
+    def history(self, sub):
+        return {"kind": "hist", "family": "population", "sub": sub, "mode": self.mode, "vlen": self.vlen,
+                "ops": self.ops, "max_pop": self.max_pop}
+
+
+def pop_growth(rng, tck, mode, variants, pmax, sweeps=POP_SWEEPS):
+    """the population grows to `pmax`; at every size of POP_SIZES members ask again (at the sizes of `sweeps`: all)"""
+    b = PopHistory(rng, tck, mode, variants)
+    for size in [x for x in POP_SIZES if x <= pmax]:
+        for v in b.variants:
+            while len(b.members[v]) < size:
+                b.join(v if len(b.variants) == 1 or rng.random() < 0.5 else None)
+        for v in b.variants:
+            for t in b.probes(v, sweep=size in sweeps):
+                b.call(t, v, interval=[0, 1] if rng.random() < 0.1 else None)
+    return b.history("growth:%s:%d" % (mode, pmax))
+
+
+def pop_random(rng, tck, mode, pmax):
+    """`p` callers in random order: each call is made by a caller drawn at random (half of the draws from the whole
+    population, half from a small hot set), through a random variant of a random subset"""
+    variants = rng.sample(VARIANTS, rng.choice([1, 1, 2, 4]))
+    b = PopHistory(rng, tck, mode, variants)
+    p = rng.randrange(2, pmax + 1)
+    tids = list(range(b.next_tid, b.next_tid + p))
+    hot = rng.sample(tids, min(len(tids), 4))
+    for _ in range(rng.randrange(p, 3 * p)):
+        t = rng.choice(hot) if rng.random() < 0.3 else rng.choice(tids)
+        r = rng.random()
+        iv = None if r < 0.8 else [0, 1] if r < 0.9 else rng.choice([[1, 10], [-1, 1]])
+        b.call(t, rng.choice(variants), interval=iv)
+    return b.history("random:%s" % mode)
+
+
+def pop_exhaustive(rng, tck, kmax, all_variants):
+    """EVERY (population size k <= kmax, position j < k): k callers take their first sample one after the other, the
+    counters advance, the j-th of them asks again (then the first and the last)."""
+    out = []
+    for k in range(1, kmax + 1):
+        for j in range(k):
+            for v in (VARIANTS if all_variants else [VARIANTS[(k + j) % 4]]):
+                b = PopHistory(rng, tck, "scripted" if (k + j) % 2 else "real", [v])
+                for _ in range(k):
+                    b.join(v)
+                m = b.members[v]
+                for t in (m[j], m[0], m[-1]):
+                    b.call(t, v)
+                out.append(b.history("exhaustive:k<=%d" % kmax))
+    return out
+
+
+def population_histories(ctx, rng, tcks):
+    """structured + random + small exhaustive parts of the population family (sizes from the tier's budget; the
+    failing-input search multiplies them: up to 5000 callers)"""
+    thorough = ctx.tier == "thorough"
+    f = ctx.budget_factor
+    kmax = 16 if thorough else 10
+    hs = pop_exhaustive(rng, rng.choice(tcks), kmax, thorough)
+    n_exh = len(hs)
+    real_max = 600 if thorough else min(600, 130 * f)
+    big = 5000 if thorough else min(5000, 520 * f)
+    small = 600 if thorough else min(600, 70 * f)
+    hs.append(pop_growth(rng, rng.choice(tcks), "real", [rng.choice(VARIANTS)], real_max, sweeps=(129, 513)))
+    first = rng.randrange(4)
+    for i in range(4):
+        v = VARIANTS[(first + i) % 4]
+        hs.append(pop_growth(rng, rng.choice(tcks), "scripted", [v], big if i == 0 else small,
+                             sweeps=(65, 129, 513, 1025, 2049, 4097) if i == 0 else (65, 257)))
+    for i in range(8 if thorough else 3):
+        hs.append(pop_random(rng, rng.choice(tcks), "scripted", 400 if thorough else 120))
+    hs.append(pop_random(rng, rng.choice(tcks), "real", 120 if thorough else 40))
+    return hs, n_exh, kmax
+
+
+def shrink_population(fails, ops):
+    """reductions of a failing population history (the failing call is the last one; every test costs a start of
+    the driver, so: a dozen directed attempts instead of delta debugging). Aim: one earlier call of the failing
+    caller, as few calls of OTHER callers as it takes, the failing call."""
+    last = ops[-1]
+    same = [o for o in ops if (o["fn"], o["percpu"]) == (last["fn"], last["percpu"])]
+    if len(same) < len(ops) and fails(same):
+        ops = same
+    mine = [i for i, o in enumerate(ops[:-1]) if o["tid"] == last["tid"]]
+    if not mine:
+        return ops
+
+    def others_once(seq):
+        seen, out = set(), []
+        for o in seq:
+            if o["tid"] != last["tid"] and o["tid"] not in seen:
+                seen.add(o["tid"])
+                out.append(o)
+        return out
+    # (a) the caller's FIRST call, then each other caller once (a store that drops the entry filed first);
+    # (b) the caller's LAST earlier call, then what the others did after it (a store that drops the least recently used)
+    for head, tail in (([ops[mine[0]]], others_once(ops[mine[0] + 1:-1])),
+                       ([ops[mine[-1]]], others_once(ops[mine[-1] + 1:-1])),
+                       ([ops[mine[-1]]], [o for o in ops[mine[-1] + 1:-1] if o["tid"] != last["tid"]])):
+        if len(head) + len(tail) + 1 < len(ops) and fails(head + tail + [last]):
+            lo, hi = 0, len(tail)                   # smallest k such that the LAST k of the others suffice
+            while lo < hi:
+                mid = (lo + hi) // 2
+                if fails(head + tail[len(tail) - mid:] + [last]):
+                    hi = mid
+                else:
+                    lo = mid + 1
+            return head + tail[len(tail) - lo:] + [last]
+    return ops
+
+
 # ------------------------------------------------------------------------------ running & comparing
 
 def run_world(ctx, impl, res, lines, tags, cmp, tokhyp=None):
@@ -1235,6 +1491,13 @@ def run_histories(ctx, impl, res, hists, cmp, findings_on=True, impl_results=Non
                 continue
             im = impl.call(op) if impl_results is None else impl_results[idx]
             v = compare_call(res, cmp, h, idx, op, im, m, nf, tp_max_one, findings_on)
+            if h.get("family") == "population" and v == "ok" and im.get("pop") is not None and "pop" in m:
+                # the dictionaries are internal: how many entries the real one holds next to the model's container is
+                # COUNTED (a store that prunes entries nobody can ask for again would differ here without being wrong)
+                res.count("population:dict_len_%s" % ("as_modelled" if im["pop"] == m["pop"] else "NOT_as_modelled"))
+                p_ = m["pop"]
+                res.count("population:call_at_size:%s" % ("<=8" if p_ <= 8 else "<=64" if p_ <= 64 else "<=128" if p_ <= 128
+                                                          else "<=512" if p_ <= 512 else "<=1024" if p_ <= 1024 else ">1024"))
         verdicts.append(v)
     return verdicts, len(lines)
 
@@ -1925,6 +2188,24 @@ def correspond(ctx, res):
                                  "first_op": {k: v for k, v in h["ops"][0].items() if k != "reads"}}
                          if len(res.samples) < 5 and h["family"] in ("subsecond", "threads", "corpus-L9") else None)
         phase("histories")
+        # ---- (b'') population of the per-thread store: many callers hold a sample at the same time
+        phists, n_exh, kmax = population_histories(ctx, ctx.rng, TCK_POOL)
+        res.exhaustive += ("; every (population k <= %d, position j < k): k callers sample one after the other, the j-th asks "
+                           "again" % kmax)
+        verdicts, nl = run_histories(ctx, impl, res, phists, cmp, tokhyp=tokhyp)
+        total_lines += nl
+        for h in phists:
+            res.count("feature:fam:population")
+            res.count("population:%s" % h["sub"].split(":k<=")[0])
+            res.count("population:mode:%s" % h["mode"])
+            res.count("calls", len(h["ops"]))
+            res.count("population:calls", len(h["ops"]))
+            res.case(h, nontrivial=True,
+                     sample={"family": "population", "sub": h["sub"], "n_ops": len(h["ops"]), "max_pop": h["max_pop"]}
+                     if h["sub"].startswith("growth:scripted") and h["max_pop"] > 500 else None)
+        res.extra["population_max"] = {"real_threads": max([h["max_pop"] for h in phists if h["mode"] == "real"] or [0]),
+                                       "scripted_identifiers": max([h["max_pop"] for h in phists if h["mode"] == "scripted"] or [0])}
+        phase("population")
         res.extra["concurrent_runs"] = concurrent_runs(ctx, impl, res, cmp, ctx.n(10, 240))
         phase("concurrent")
         res.extra["ident_reuse_runs"] = run_ident_reuse(ctx, impl, res, cmp, ctx.n(30, 600))
@@ -2010,7 +2291,10 @@ def shrink(ctx, d):
             if not ops:
                 return False
             return _fails_input(ctx, impl, dict(inp, ops=ops), True)[0]
-        small = ddmin(inp["ops"], fails, max_tests=40)
+        ops0 = inp["ops"]
+        if inp.get("family") == "population":
+            ops0 = shrink_population(fails, ops0)
+        small = ddmin(ops0, fails, max_tests=40) if inp.get("family") != "population" else ops0
         out = _fails_input(ctx, impl, dict(inp, ops=small), True)
         if out[0]:
             dd = [x for x in out[1].disagreements if x["kind"] == "spec" and not x.get("finding")][0]
